@@ -66,7 +66,7 @@ def _corner_sides(k):
     return [s for s, (ax, end) in SIDE_AXIS.items() if bits[ax] == end]
 
 
-def run(sx, scenario, jitter_ops, thin_axis=None):
+def run(sx, scenario, jitter_ops, thin_axis=None, reassemble=False):
     sc = SCENARIOS[scenario]
     h = None
     if thin_axis is not None:
@@ -112,6 +112,14 @@ def run(sx, scenario, jitter_ops, thin_axis=None):
     for i in order:
         mesh.add(ops[i])
     mesh.assemble(skip_edges=True)
+    # the same mesh assembled again (solver's choice): not at all, after clear(), or through backport() (what optimisers
+    # and smoothers end with); the vertex list of the last assembly is the one judged
+    again = sx.choice("reassemble", 3) if reassemble else 0
+    if again == 1:
+        mesh.clear()
+        mesh.assemble(skip_edges=True)
+    elif again == 2:
+        mesh.backport()
     sx.reach("assembled")
     blocks = {i: mesh.blocks[k] for k, i in enumerate(order)}
     slaves = {s for _, s in sc["merges"]}
@@ -156,6 +164,9 @@ def jobs(tier, seed):
             jit = [0]
         js.append({"name": name, "fn": "run", "params": {"scenario": name, "jitter_ops": jit},
                    "budget_s": 240 if tier == "quick" else 1500, "timeout_ms": 20000 if tier == "quick" else 60000})
+        if name in ("face-x:slave-on-second", "L:two-pairs-meeting", "row3:plain-patches") or tier == "thorough":
+            js.append({"name": f"{name}|assembled again", "fn": "run", "params": {"scenario": name, "jitter_ops": [], "reassemble": True},
+                       "budget_s": 240 if tier == "quick" else 1500, "timeout_ms": 20000 if tier == "quick" else 60000})
         thin = {"stack-z:slave-on-top-face": [2], "face-x:none": [0, 1], "edge-contact:none": [1], "row3:plain-patches": [0]}
         for ax in (thin.get(name, []) if tier == "quick" else [0, 1, 2]):
             js.append({"name": f"{name}|thin layer along {'xyz'[ax]}", "fn": "run",
